@@ -9,9 +9,17 @@
     VMNetconfig.validate                  -> genValidateHost / genValidateAddrs / genValidateIface / genValidate
                                                                                               (validate)
 
-`extract_net(ctx)` regenerates lean/I2N/Extracted/GenNet.lean from /repo's CURRENT source (PYGEN_NETCONFIG_SRC names
-another file for mutation sanity runs); it is called by `extract(ctx)` of harness/props/c18.py.  The equality theorems
-`allocate_matches_source`, … are at the end of lean/I2N/Props/C18.lean.
+and for avocado_i2n/vmnet/network.py (generated file lean/I2N/Extracted/GenNetwork.lean):
+
+    VMNetwork.reattach_interface          -> genReattachProxySelected / genReattachAttach / genReattachProxyPart /
+                                             genReattachProxy / genReattach                          (reattach)
+    VMNetwork.integrate_node              -> genIntegrateTest / genIntegrateFound / genIntegrateNew / genFindNc /
+                                             genPlace / genPlaceAll / genIntegrateNode               (integrateNode)
+
+`extract_net(ctx)` regenerates lean/I2N/Extracted/GenNet.lean and GenNetwork.lean from /repo's CURRENT source
+(PYGEN_NETCONFIG_SRC / PYGEN_NETWORK_SRC name another file for mutation sanity runs); it is called by `extract(ctx)` of
+harness/props/c18.py.  The equality theorems `allocate_matches_source`, …, `validate_matches_source`,
+`reattach_matches_source`, `integrateNode_matches_source` are at the end of lean/I2N/Props/C18.lean.
 
 HOW ADDRESSES ARE REPRESENTED (the atom table; trusted, see the docstring of pygen.py).  The hand model
 (lean/I2N/Model/Net.lean) has an IPv4 address, a dotted string and a netmask as ONE natural number.  The generated
@@ -42,9 +50,10 @@ definitions use Python's integers (`Int`: the difference `int(source_ip) - int(n
 NEVER pinned: the order of the tests, the comparisons (`==`, `!=`, `and`), the subtraction / addition of
 `translate_address`, the `zfill` width, the first-free search and which exception ends it.
 
-Three functions are outside pygen's statement subset and are CUT by this module (mechanically, failing closed, like
-harness/pygen_pxcmd.py): the for/else of `get_allocatable_address`, the getter half of `mask_bit`, and the loops of
-`validate`; the cut pieces are handed to `pygen.translate` as synthetic functions whose bodies are the very AST nodes
+Five functions are outside pygen's statement subset and are CUT by this module (mechanically, failing closed, like
+harness/pygen_pxcmd.py): the for/else of `get_allocatable_address`, the getter half of `mask_bit`, the loops / the
+address dictionary / the asserts of `validate` (section (5)), `reattach_interface` (assigns to its parameters; section
+(6)) and the nested for/else of `integrate_node` (section (7)); the cut pieces are handed to `pygen.translate` as synthetic functions whose bodies are the very AST nodes
 of the source, and a fixed Lean skeleton (printed in the generated file) puts them together.
 """
 import ast
@@ -367,6 +376,584 @@ def maskbit_defs(tree, consts):
 
 
 # ---------------------------------------------------------------------------------------------------------------------
+# (5) validate
+#
+# Outside pygen's statement subset (a dictionary of address objects, `assert`, two loops that raise), so it is CUT and
+# REWRITTEN mechanically (every rewrite is checked and fails closed):
+#
+#   part 1   the statements in front of the first loop, which must start with `addresses = {}` and end with the pinned
+#            `own = ipaddress.ip_interface(...)`: the dictionary is only read by the first loop, in insertion order, and
+#            its keys are DISTINCT string constants (checked), so it is the list of its values:
+#            `addresses = {}` -> `addresses = []`, `addresses["k"] = e` -> `addresses += [e]`, `return addresses` added;
+#            `assert self.ip_start is not None` / `ip_end` are pinned: they evaluate the property (AddressValueError)
+#   loop 1   `for key in addresses.keys(): <body>`: the body is translated as a function of the value `addresses[key]`
+#   loop 2   `for interface in self.interfaces.values(): <body>`: the body is translated
+#   in both bodies `assert X` is rewritten to `if not X: raise AssertionError("assert")` (Python without -O) and
+#   `a in b` / `a not in b` with `b` = `own.network` to `b.__contains__(a)` / `not b.__contains__(a)`; the two
+#   `raise exceptions.TestError(...)` statements are pinned verbatim (class + message)
+
+VALIDATE_PRELUDE = [
+    "/-- `<iface> in own.network` (`IPv4Network.__contains__` of an address object: `ip & netmask == network_address`;",
+    "the hand model's `inNet`) -/",
+    "def inNetwork (c : Netconfig) (a : IpIface) : Bool := inNet c a.1",
+    "/-- `ipaddress.ip_interface(\"%s/%s\" % (self.ip_start, self.mask_bit))`: the property `ip_start` is",
+    "`str(IPv4Address(self.net_ip) + minint)` (AddressValueError when it leaves the address space); `minint` is the hand",
+    "model's `minOff` (NOT tied here) -/",
+    "def ipStartIface (c : Netconfig) : Except Err IpIface := do",
+    "  let a ← ipv4 (Int.ofNat c.netIp + Int.ofNat (minOff c.range)); pure (a.toNat, c.bits)",
+    "def ipEndIface (c : Netconfig) : Except Err IpIface := do",
+    "  let a ← ipv4 (Int.ofNat c.netIp + Int.ofNat (maxOff c.range)); pure (a.toNat, c.bits)",
+    "/-- `interface.netconfig` / `self` as object references -/",
+    "abbrev NcRef := Option Nat",
+]
+
+VALIDATE_HOST_TEST = "self.host_ip is not None and self.host_ip != ''"
+VALIDATE_OWN = "own = " + IFACE.format("self.net_ip")
+VALIDATE_RAISE_ADDR = """
+raise exceptions.TestError('The predefined %s %s is not in the netconfig %s' % (key, addresses[key], self.net_ip))
+"""
+VALIDATE_RAISE_IFACE = """
+raise exceptions.TestError('The interface with ip %s is not in the netconfig %s' % (ip, self.net_ip))
+"""
+VALIDATE_DOC = "`VMNetconfig.validate` of avocado_i2n/vmnet/netconfig.py, cut and rewritten by harness/pygen_pxnet.py: "
+ASSERT_RAISES = [("AssertionError", "assert", "Err.assertion")]
+CONTAINS = {"own.network.__contains__(_1)": ("(inNetwork c {1})", "bool", "pure", ("IpIface",))}
+
+
+def _rw_expr(e):
+    """`a in own.network` -> `own.network.__contains__(a)`, `a not in own.network` -> `not own.network.__contains__(a)`"""
+    import copy
+
+    class T(ast.NodeTransformer):
+        def visit_Compare(self, n):
+            self.generic_visit(n)
+            if len(n.ops) == 1 and isinstance(n.ops[0], (ast.In, ast.NotIn)) \
+                    and ast.unparse(n.comparators[0]) == "own.network":
+                call = ast.Call(func=ast.Attribute(value=n.comparators[0], attr="__contains__", ctx=ast.Load()),
+                                args=[n.left], keywords=[])
+                return call if isinstance(n.ops[0], ast.In) else ast.UnaryOp(op=ast.Not(), operand=call)
+            return n
+    return T().visit(copy.deepcopy(e))
+
+
+def _rw_body(stmts, where, keys=None, pinned=()):
+    """the rewrites of (5); `keys` collects the keys of `addresses[...] = e` (None: such a store is refused)"""
+    out = []
+    for st in stmts:
+        if pygen.dump_stmts([st]) in pinned:
+            out.append(st)
+        elif isinstance(st, ast.Assert):
+            if st.msg is not None:
+                raise Unsupported(f"{where}: `{ast.unparse(st)[:60]}` (an assert with a message)")
+            out.append(ast.If(test=ast.UnaryOp(op=ast.Not(), operand=_rw_expr(st.test)),
+                              body=[ast.Raise(exc=ast.Call(func=ast.Name(id="AssertionError", ctx=ast.Load()),
+                                                           args=[ast.Constant(value="assert")], keywords=[]), cause=None)],
+                              orelse=[]))
+        elif isinstance(st, ast.Assign) and len(st.targets) == 1 and isinstance(st.targets[0], ast.Subscript) \
+                and ast.unparse(st.targets[0].value) == "addresses":
+            k = st.targets[0].slice
+            if keys is None or not isinstance(k, ast.Constant) or not isinstance(k.value, str) or k.value in keys:
+                raise Unsupported(f"{where}: `{ast.unparse(st)[:60]}` (only `addresses[<a new string constant>] = e` in "
+                                  "front of the loops)")
+            keys.append(k.value)
+            out.append(ast.AugAssign(target=ast.Name(id="addresses", ctx=ast.Store()), op=ast.Add(),
+                                     value=ast.List(elts=[_rw_expr(st.value)], ctx=ast.Load())))
+        elif isinstance(st, ast.If):
+            out.append(ast.If(test=_rw_expr(st.test), body=_rw_body(st.body, where, keys, pinned),
+                              orelse=_rw_body(st.orelse, where, keys, pinned)))
+        elif isinstance(st, (ast.Assign, ast.Expr, ast.Raise, ast.Pass)):
+            for n in ast.walk(st):
+                if isinstance(n, ast.Name) and n.id == "addresses" and isinstance(n.ctx, (ast.Store, ast.Del)):
+                    raise Unsupported(f"{where}: `{ast.unparse(st)[:60]}` rebinds `addresses`")
+            if isinstance(st, ast.Assign):
+                st = ast.Assign(targets=st.targets, value=_rw_expr(st.value), type_comment=None)
+            out.append(st)
+        else:
+            raise Unsupported(f"{where}: `{ast.unparse(st)[:60]}` ({type(st).__name__} inside a rewritten part)")
+    return out
+
+
+def validate_defs(tree, consts):
+    import copy
+    fn = _class_function(tree, "VMNetconfig", "validate")
+    _args(fn, ["self"])
+    where = f"validate:{fn.lineno}"
+    body = _strip_logs(_body(fn), where)
+    loops = [k for k, st in enumerate(body) if isinstance(st, ast.For)]
+    if len(loops) != 2 or loops != [len(body) - 2, len(body) - 1] or loops[0] < 2:
+        raise Unsupported(f"{where}: the function is no longer <statements>; <loop over addresses>; <loop over interfaces>")
+    part1, loop1, loop2 = body[:loops[0]], body[-2], body[-1]
+    _pinned(part1[:1], "addresses = {}", where, "`addresses = {}`")
+    _pinned(part1[-1:], VALIDATE_OWN, where, "`own = ipaddress.ip_interface(...)` in front of the loops")
+    _no_jumps(part1, where)
+    for lp, target, it in ((loop1, "key", "addresses.keys()"), (loop2, "interface", "self.interfaces.values()")):
+        if lp.orelse or ast.unparse(lp.target) != target or ast.unparse(lp.iter) != it:
+            raise Unsupported(f"{where}: a loop is no longer `for {target} in {it}:` (without an else)")
+        _no_jumps(lp.body, where)
+    pins = {"assert self.ip_start is not None": "let _ ← ipStartIface c",
+            "assert self.ip_end is not None": "let _ ← ipEndIface c"}
+    keys = []
+    mid = _rw_body(copy.deepcopy(part1[1:-1]), where, keys, {pygen.norm_block(k) for k in pins})
+    first = ast.parse("addresses = []").body[0]
+    last = ast.parse("return addresses").body[0]
+    addr_fn = _synth("validate_addresses", [], [first] + mid + [last], part1[0])
+    addr_spec = Spec(
+        "genValidateAddresses", binders=[("c", "Netconfig")], params={}, ret=("list", "IpIface"), monad="except",
+        atoms={VALIDATE_HOST_TEST: ("c.host.isSome", "bool"),
+               IFACE.format("self.host_ip"): ("(c.host.getD 0, c.bits)", "IpIface"),
+               IFACE.format("self.ip_start"): ("ipStartIface c", "IpIface", "raises"),
+               IFACE.format("self.ip_end"): ("ipEndIface c", "IpIface", "raises")},
+        stmts=pins, local_types={"addresses": ("list", "IpIface")},
+        doc=VALIDATE_DOC + "the statements in front of the loops; the dictionary `addresses` (distinct constant keys "
+                           + ", ".join(keys) + "; only iterated) is the list of its values in insertion order; `c.host` is "
+                           "`none` for None and for the empty string")
+    b1 = _rw_body(copy.deepcopy(loop1.body), where)
+    _no_names_bound(b1, (), where)
+    a_fn = _synth("validate_address", [], b1, loop1)
+    a_spec = Spec("genValidateAddress", binders=[("c", "Netconfig"), ("a", "IpIface")], params={}, ret="unit",
+                  monad="except", atoms={"addresses[key]": ("a", "IpIface")}, calls=CONTAINS,
+                  stmts={VALIDATE_RAISE_ADDR: "throw Err.testError"},
+                  doc=VALIDATE_DOC + "the body of `for key in addresses.keys():`; `a` = `addresses[key]`")
+    b2 = _rw_body(copy.deepcopy(loop2.body), where)
+    _no_names_bound(b2, ("ip",), where)
+    i_fn = _synth("validate_interface", [], b2, loop2)
+    i_spec = Spec(
+        "genValidateIface", binders=[("n", "Nat"), ("c", "Netconfig"), ("i", "Nat"), ("f", "Iface")], params={},
+        ret="unit", monad="except",
+        atoms={"interface.netconfig": ("f.nc", "NcRef"), "self": ("(some n : NcRef)", "NcRef"),
+               "self.interfaces[interface.ip]": ("ifsGet c f.ip", "Nat", "raises"), "interface": ("i", "Nat"),
+               IFACE.format("interface.ip"): ("(f.ip, c.bits)", "IpIface")},
+        calls=CONTAINS, stmts={VALIDATE_RAISE_IFACE: "throw Err.testError"}, raises=ASSERT_RAISES,
+        type_defaults={"NcRef": "none", "Nat": "0"},
+        doc=VALIDATE_DOC + "the body of `for interface in self.interfaces.values():`; `n` = self (the netconfig object), "
+                           "`i` = the interface object, `f` = its attributes; `==` on objects is identity")
+    d1 = pygen.translate(addr_fn, addr_spec, consts)
+    d2 = pygen.translate(a_fn, a_spec, consts)
+    d3 = pygen.translate(i_fn, i_spec, consts)
+    skeleton = [
+        "/-- `for key in addresses.keys(): <genValidateAddress>` -/",
+        "def genValidateAddrs (c : Netconfig) : List IpIface → Except Err Unit",
+        "  | [] => pure ()",
+        "  | a :: rest => do",
+        "    genValidateAddress c a",
+        "    genValidateAddrs c rest",
+        "/-- `for interface in self.interfaces.values(): <genValidateIface>` -/",
+        "def genValidateIfaces (s : Net) (n : Nat) (c : Netconfig) : List (Nat × Nat) → Except Err Unit",
+        "  | [] => pure ()",
+        "  | (_, i) :: rest => do",
+        "    genValidateIface n c i (s.iface i)",
+        "    genValidateIfaces s n c rest",
+        "/-- `validate` of netconfig object `n` (skeleton matched structurally): the statements in front of the loops,",
+        "the loop over the addresses, the loop over the interfaces -/",
+        "def genValidate (s : Net) (n : Nat) : Except Err Unit := do",
+        "  let c := s.nc n",
+        "  genValidateAddrs c (← genValidateAddresses c)",
+        "  genValidateIfaces s n c c.ifs",
+    ]
+    return [VALIDATE_PRELUDE, d1, d2, d3, skeleton]
+
+
+# ---------------------------------------------------------------------------------------------------------------------
+# (6) VMNetwork.reattach_interface (avocado_i2n/vmnet/network.py) -> lean/I2N/Extracted/GenNetwork.lean
+#
+# The function assigns to its parameters `client_nic` / `server_nic` (pygen refuses that), so it is CUT here:
+#
+#   head (pinned verbatim)      the four statements that resolve the nic roles to the two interface objects: in the model
+#                               these are the ids `c` (interface) and `r` (ref_interface)
+#   proxy selection             `proxy_interface = None` / `if <test>: proxy_interface = self.interfaces[<server>.<proxy_nic>]`
+#                               matched structurally, the TEST is translated (genReattachProxySelected); a nic name of the
+#                               server is the id of the interface object registered under it (`none` = the empty name,
+#                               `some r` = the resolved `server_nic`: integrate_node registers one new object per name)
+#   `netconfig = ref_interface.netconfig` (+ a logging.debug)   pinned: `tn`
+#   attach part (translated)    every statement up to `if proxy_interface is not None:` (genReattachAttach)
+#   proxy part (translated)     the body of that `if` (genReattachProxyPart); the `if` itself is matched structurally
+#   tail (pinned verbatim)      the three `self.params[...] = ...` updates and a logging.debug: no effect on the registry
+#
+# Inside the translated parts every statement is ONE attribute store / `del` / call on the object heap; each is pinned
+# to the composition of the primitive heap actions of the prelude that it spells (order, presence and the branch are
+# translated; a statement that is not in the table is refused).
+
+NETWORK = "avocado_i2n/vmnet/network.py"
+
+NETWORK_PRELUDE = [
+    "/-- `<interface>.netconfig` used as an object (the model's `assertion` when it is None; Python: AttributeError) -/",
+    "def ncOf (i : Nat) : NetM Nat := fun s => match (s.iface i).nc with | some n => .ok (n, s) | none => .error .assertion",
+    "/-- `<interface>.ip` -/",
+    "def ipOf (i : Nat) : NetM Nat := fun s => .ok ((s.iface i).ip, s)",
+    "/-- `del <netconfig n>.interfaces[ip]` (KeyError when missing) -/",
+    "def delIfs (n ip : Nat) : NetM Unit := fun s =>",
+    "  if !hasKey ip (s.nc n).ifs then .error .keyError else .ok ((), s.setNc n (fun k => { k with ifs := adel ip k.ifs }))",
+    "/-- `<netconfig n>.get_allocatable_address()` (the hand model's `allocate`; its own tie: genAllocate) -/",
+    "def allocM (n : Nat) : NetM Nat := fun s =>",
+    "  match allocate (s.nc n) with | .error e => .error e | .ok (a, k) => .ok (a, s.setNc n (fun _ => k))",
+    "/-- `<interface i>.ip = a` -/",
+    "def setIp (i a : Nat) : NetM Unit := fun s => .ok ((), s.setIface i (fun f => { f with ip := a }))",
+    "/-- `<interface i>.netconfig = <netconfig n>` -/",
+    "def setNcRef (i n : Nat) : NetM Unit := fun s => .ok ((), s.setIface i (fun f => { f with nc := some n }))",
+    "/-- a nic name of the server: the id of the interface object registered under it, `none` = the empty name -/",
+    "abbrev NicName := Option Nat",
+    "/-- `self.interfaces[\"%s.%s\" % (server.name, proxy_nic)]`: the object registered under the name; nothing is",
+    "registered under the empty nic name (KeyError) -/",
+    "def lookupNic (p : NicName) : NetM Nat := fun s => match p with | some pi => .ok (pi, s) | none => .error .keyError",
+]
+
+REATTACH_ARGS = ["self", "client", "server", "client_nic", "server_nic", "proxy_nic"]
+REATTACH_DEFAULTS = ["'internet_nic'", "'lan_nic'", "''"]
+REATTACH_HEAD = """
+client_nic = self.nodes[client.name].params[client_nic]
+server_nic = self.nodes[server.name].params[server_nic]
+interface = self.interfaces['%s.%s' % (client.name, client_nic)]
+ref_interface = self.interfaces['%s.%s' % (server.name, server_nic)]
+"""
+REATTACH_PROXY_NONE = "proxy_interface = None"
+REATTACH_PROXY_GET = "proxy_interface = self.interfaces['%s.%s' % (server.name, proxy_nic)]"
+REATTACH_NETCONFIG = "netconfig = ref_interface.netconfig"
+REATTACH_TAIL = """
+self.params['netdst_%s_%s' % (client_nic, client.name)] = netconfig.netdst
+self.params['ip_%s_%s' % (client_nic, client.name)] = interface.ip
+self.params['netmask_%s_%s' % (client_nic, client.name)] = netconfig.netmask
+"""
+
+REATTACH_ATTACH_STMTS = {
+    "del interface.netconfig.interfaces[interface.ip]": "delIfs (← ncOf c) (← ipOf c)",
+    "interface.ip = netconfig.get_allocatable_address()": "setIp c (← allocM tn)",
+    "netconfig.add_interface(interface)": "genAddInterface tn c",
+}
+REATTACH_PROXY_STMTS = {
+    "del netconfig.interfaces[interface.ip]": "delIfs tn (← ipOf c)",
+    "ref_interface.ip = proxy_interface.ip": "setIp r (← ipOf pi)",
+    "interface.ip = proxy_interface.netconfig.get_allocatable_address()": "setIp c (← allocM (← ncOf pi))",
+    "interface.netconfig = proxy_interface.netconfig": "setNcRef c (← ncOf pi)",
+}
+
+REATTACH_DOC = "`VMNetwork.reattach_interface` of avocado_i2n/vmnet/network.py, cut by harness/pygen_pxnet.py: "
+
+
+def _is_log(st):
+    return isinstance(st, ast.Expr) and isinstance(st.value, ast.Call) and pygen._dotted(st.value.func) == "logging.debug"
+
+
+def _pinned(stmts, text, where, what):
+    if pygen.dump_stmts(stmts) != pygen.norm_block(text):
+        raise Unsupported(f"{where}: {what} changed (pinned verbatim)")
+
+
+def reattach_defs(tree, consts):
+    fn = pygen.find_function(tree, "VMNetwork.reattach_interface")
+    _args(fn, REATTACH_ARGS)
+    if [ast.unparse(d) for d in fn.args.defaults] != REATTACH_DEFAULTS:
+        raise Unsupported("reattach_interface: the defaults of client_nic / server_nic / proxy_nic changed")
+    where = f"reattach_interface:{fn.lineno}"
+    body = _body(fn)
+    if len(body) < 12:
+        raise Unsupported(f"{where}: the function has {len(body)} statements, it no longer has the shape of the cut")
+    _pinned(body[:4], REATTACH_HEAD, where, "the head that resolves the nic roles to interface objects")
+    _pinned(body[4:5], REATTACH_PROXY_NONE, where, "`proxy_interface = None`")
+    sel = body[5]
+    if not isinstance(sel, ast.If) or sel.orelse:
+        raise Unsupported(f"{where}: the proxy selection is no longer `if <test>: proxy_interface = …` without an else")
+    _pinned(sel.body, REATTACH_PROXY_GET, where, "the lookup of the proxy interface")
+    for n in ast.walk(sel.test):
+        if isinstance(n, (ast.Call, ast.NamedExpr, ast.Attribute, ast.Subscript)):
+            raise Unsupported(f"{where}: the proxy selection test is no longer a test on the nic names only")
+    _pinned(body[6:7], REATTACH_NETCONFIG, where, "`netconfig = ref_interface.netconfig`")
+    rest = body[7:]
+    if rest and _is_log(rest[0]):
+        rest = rest[1:]
+    # tail: three parameter updates + an optional logging.debug
+    tail_at = next((k for k, st in enumerate(rest) if isinstance(st, ast.Assign)
+                    and ast.unparse(st.targets[0]).startswith("self.params[")), None)
+    if tail_at is None:
+        raise Unsupported(f"{where}: the parameter updates at the end are gone")
+    core, tail = rest[:tail_at], rest[tail_at:]
+    if tail and _is_log(tail[-1]):
+        tail = tail[:-1]
+    _pinned(tail, REATTACH_TAIL, where, "the tail (the three updates of self.params)")
+    if not core or not isinstance(core[-1], ast.If) or core[-1].orelse \
+            or ast.unparse(core[-1].test) != "proxy_interface is not None":
+        raise Unsupported(f"{where}: the statements between `netconfig = …` and the parameter updates no longer end with "
+                          "`if proxy_interface is not None: <proxy part>` (without an else)")
+    attach, proxy = core[:-1], core[-1].body
+    _no_jumps(attach, where)
+    _no_jumps(proxy, where)
+    for st in attach + proxy:
+        for n in ast.walk(st):
+            if isinstance(n, ast.Name) and isinstance(n.ctx, (ast.Store, ast.Del)):
+                raise Unsupported(f"{where}: `{ast.unparse(st)[:60]}` rebinds the local {n.id!r} inside the translated part")
+    sel_fn = _synth("reattach_proxy_selected", ["proxy_nic", "server_nic"], [ast.Return(value=sel.test)], sel)
+    sel_spec = Spec(
+        "genReattachProxySelected", binders=[("r", "Nat"), ("p", "NicName")],
+        params={"proxy_nic": ("p", "NicName"), "server_nic": ("(some r : NicName)", "NicName")}, ret="bool", monad="pure",
+        atoms={"''": ("(none : NicName)", "NicName")}, type_defaults={"NicName": "none"},
+        doc=REATTACH_DOC + "the test of the proxy selection (`server_nic` is the resolved name of the pinned head); a nic "
+                           "name is the id of the interface registered under it, the empty name is `none`")
+    attach_fn = _synth("reattach_attach", [], attach, core[0])
+    attach_spec = Spec("genReattachAttach", binders=[("c", "Nat"), ("tn", "Nat")], params={}, ret="unit", monad="NetM",
+                       stmts=REATTACH_ATTACH_STMTS, ignored_calls=("logging.debug",),
+                       doc=REATTACH_DOC + "the statements between `netconfig = ref_interface.netconfig` and `if "
+                                          "proxy_interface is not None:`; `c` = interface, `tn` = netconfig")
+    proxy_fn = _synth("reattach_proxy_part", [], proxy, core[-1])
+    proxy_spec = Spec("genReattachProxyPart", binders=[("c", "Nat"), ("r", "Nat"), ("tn", "Nat"), ("pi", "Nat")],
+                      params={}, ret="unit", monad="NetM", stmts=REATTACH_PROXY_STMTS, ignored_calls=("logging.debug",),
+                      doc=REATTACH_DOC + "the body of `if proxy_interface is not None:`; `r` = ref_interface, `pi` = "
+                                         "proxy_interface")
+    d1 = pygen.translate(sel_fn, sel_spec, consts)
+    d2 = pygen.translate(attach_fn, attach_spec, consts)
+    d3 = pygen.translate(proxy_fn, proxy_spec, consts)
+    skeleton = [
+        "/-- the skeleton of `reattach_interface` (matched structurally): the pinned head gives the interface objects `c`,",
+        "`r`; `proxy_interface` is None unless the selection test holds, then it is looked up (genReattachProxy);",
+        "`netconfig = ref_interface.netconfig`; the attach",
+        "part; `if proxy_interface is not None:` the proxy part; the pinned tail does not touch the registry -/",
+        "def genReattachProxy (r : Nat) (p : NicName) : NetM (Option Nat) :=",
+        "  if genReattachProxySelected r p then (do let pi ← lookupNic p; pure (some pi)) else pure none",
+        "def genReattach (c r : Nat) (p : NicName) : NetM Unit := do",
+        "  let proxy_interface ← genReattachProxy r p",
+        "  let tn ← ncOf r",
+        "  genReattachAttach c tn",
+        "  match proxy_interface with",
+        "  | some pi => genReattachProxyPart c r tn pi",
+        "  | none => pure ()",
+    ]
+    return [d1, d2, d3, skeleton]
+
+
+# ---------------------------------------------------------------------------------------------------------------------
+# (7) VMNetwork.integrate_node -> genIntegrateTest / genIntegrateFound / genIntegrateNew / genFindNc / genPlace /
+#     genPlaceAll / genIntegrateNode                                                              (integrateNode)
+#
+#   prefix (pinned verbatim)    the two guards (`node in self.nodes`, `len(node.interfaces) > 0`: a node is integrated once)
+#                               and the FIRST loop, which creates one new interface object per nic: in the model the ids
+#                               `first … first+count-1` in creation order, none of them attached
+#   second loop                 `for interface in node.interfaces.values():` with ONE statement besides logging, the
+#                               for/else over `self.netconfigs.values()`: `if <test>: <found part>; break` /
+#                               `else: <new part>`; test, found part and new part are translated, the for/else (first
+#                               registered netconfig that passes the test, else the new part) is the fixed skeleton
+
+INTEGRATE_PRELUDE = [
+    "/-- `<netconfig n>.can_add_interface(<interface i>)` (genCanAdd on the current objects) -/",
+    "def canAddM (n i : Nat) : NetM Bool := fun s =>",
+    "  match genCanAdd (s.nc n) i (s.iface i) with | .error e => .error e | .ok b => .ok (b, s)",
+    "/-- `self.new_netconfig()`: a new netconfig object (the next id), nothing set yet -/",
+    "def newNetconfig : NetM Nat := fun s =>",
+    "  .ok (s.nNc, { s with nNc := s.nNc + 1, nc := fun m => if m = s.nNc then default else s.nc m })",
+    "/-- `<netconfig n>.from_interface(<interface i>)` (the hand model's `fromInterface`: every attribute is set) -/",
+    "def fromInterfaceM (n i : Nat) : NetM Unit := fun s => .ok ((), s.setNc n (fun _ => fromInterface (s.iface i)))",
+    "/-- `self.netconfigs[<netconfig n>.net_ip] = <netconfig n>` -/",
+    "def registerNc (n : Nat) : NetM Unit := fun s => .ok ((), { s with reg := aset (s.nc n).netIp n s.reg })",
+    "/-- `self.netconfigs.values()` when the loop starts -/",
+    "def registered : NetM (List (Nat × Nat)) := fun s => .ok (s.reg, s)",
+]
+
+INTEGRATE_PREFIX = """
+if node in self.nodes:
+    raise AssertionError('The vm node has already been integrated')
+if len(node.interfaces) > 0:
+    raise AssertionError('The integrated vm node must not have any initialized interfaces')
+for nic_name in node.platform.params.objects('nics'):
+    ikey = '%s.%s' % (node.name, nic_name)
+    nic_params = node.platform.params.object_params(nic_name)
+    new_interface = self.new_interface(nic_name, nic_params)
+    node.interfaces[nic_name] = new_interface
+    self.interfaces[ikey] = new_interface
+    self.interfaces[ikey].node = node
+    logging.debug('Generated interface {0}: {1}'.format(ikey, self.interfaces[ikey]))
+"""
+INTEGRATE_FOUND_STMTS = {"netconfig.add_interface(interface)": "genAddInterface n i"}
+INTEGRATE_NEW_STMTS = {
+    "netconfig = self.new_netconfig()": "let n ← newNetconfig",
+    "netconfig.from_interface(interface)": "fromInterfaceM n i",
+    "netconfig.add_interface(interface)": "genAddInterface n i",
+    "self.netconfigs[netconfig.net_ip] = netconfig": "registerNc n",
+}
+INTEGRATE_DOC = "`VMNetwork.integrate_node` of avocado_i2n/vmnet/network.py, cut by harness/pygen_pxnet.py: "
+
+
+def _strip_logs(stmts, where):
+    """drop `logging.debug(<message>)` statements whose message only reads (constants, names, attributes and
+    `"…".format(…)` of those): no effect on the registry"""
+    out = []
+    for st in stmts:
+        if not _is_log(st):
+            out.append(st)
+            continue
+        for a in list(st.value.args) + [k.value for k in st.value.keywords]:
+            for n in ast.walk(a):
+                ok = isinstance(n, (ast.Constant, ast.Name, ast.Attribute, ast.Load)) or (
+                    isinstance(n, ast.Call) and isinstance(n.func, ast.Attribute) and n.func.attr == "format"
+                    and isinstance(n.func.value, ast.Constant) and not n.keywords)
+                if not ok:
+                    raise Unsupported(f"{where}: the message of `{ast.unparse(st)[:60]}` is not a plain message")
+    return out
+
+
+def _no_names_bound(stmts, allowed, where):
+    for st in stmts:
+        for n in ast.walk(st):
+            if isinstance(n, ast.Name) and isinstance(n.ctx, (ast.Store, ast.Del)) and n.id not in allowed:
+                raise Unsupported(f"{where}: `{ast.unparse(st)[:60]}` binds the local {n.id!r} inside a translated part")
+
+
+def integrate_defs(tree, consts):
+    fn = pygen.find_function(tree, "VMNetwork.integrate_node")
+    _args(fn, ["self", "node"])
+    where = f"integrate_node:{fn.lineno}"
+    body = _strip_logs(_body(fn), where)
+    if len(body) != 4:
+        raise Unsupported(f"{where}: {len(body)} statements besides logging (expected: two guards and two loops)")
+    _pinned(body[:3], INTEGRATE_PREFIX, where, "the guards / the loop that creates the interface objects")
+    outer = body[3]
+    if not isinstance(outer, ast.For) or outer.orelse or ast.unparse(outer.target) != "interface" \
+            or ast.unparse(outer.iter) != "node.interfaces.values()":
+        raise Unsupported(f"{where}: the second loop is no longer `for interface in node.interfaces.values():`")
+    obody = _strip_logs(outer.body, where)
+    if len(obody) != 1 or not isinstance(obody[0], ast.For):
+        raise Unsupported(f"{where}: the body of the second loop is no longer the one for/else over the netconfigs")
+    loop = obody[0]
+    if ast.unparse(loop.target) != "netconfig" or ast.unparse(loop.iter) != "self.netconfigs.values()":
+        raise Unsupported(f"{where}: the inner loop is no longer `for netconfig in self.netconfigs.values():`")
+    if len(loop.body) != 1 or not isinstance(loop.body[0], ast.If) or loop.body[0].orelse \
+            or len(loop.body[0].body) < 2 or not isinstance(loop.body[0].body[-1], ast.Break):
+        raise Unsupported(f"{where}: the inner loop body is no longer `if <test>: <statements>; break`")
+    if not loop.orelse:
+        raise Unsupported(f"{where}: the inner loop lost its `else` (a new netconfig for an interface that fits nowhere)")
+    test, found, new = loop.body[0].test, _strip_logs(loop.body[0].body[:-1], where), _strip_logs(loop.orelse, where)
+    if not found or not new:
+        raise Unsupported(f"{where}: the found part / the new part of the inner loop is empty")
+    _no_jumps(found, where)
+    _no_jumps(new, where)
+    _no_names_bound(found, (), where)
+    _no_names_bound(new, ("netconfig",), where)
+    test_fn = _synth("integrate_node_test", [], [ast.Return(value=test)], loop)
+    test_spec = Spec("genIntegrateTest", binders=[("n", "Nat"), ("i", "Nat")], params={}, ret="bool", monad="NetM",
+                     atoms={"netconfig.can_add_interface(interface)": ("canAddM n i", "bool", "raises")},
+                     doc=INTEGRATE_DOC + "the test of `for netconfig in self.netconfigs.values(): if <test>:`; `n` = "
+                                         "netconfig, `i` = interface")
+    found_fn = _synth("integrate_node_found", [], found, loop)
+    found_spec = Spec("genIntegrateFound", binders=[("n", "Nat"), ("i", "Nat")], params={}, ret="unit", monad="NetM",
+                      stmts=INTEGRATE_FOUND_STMTS, ignored_calls=("logging.debug",),
+                      doc=INTEGRATE_DOC + "the statements of the `if` in front of its `break`")
+    new_fn = _synth("integrate_node_new", [], new, loop)
+    new_spec = Spec("genIntegrateNew", binders=[("i", "Nat")], params={}, ret="unit", monad="NetM",
+                    stmts=INTEGRATE_NEW_STMTS, ignored_calls=("logging.debug",),
+                    doc=INTEGRATE_DOC + "the `else` of the inner loop (no registered netconfig takes the interface)")
+    d1 = pygen.translate(test_fn, test_spec, consts)
+    d2 = pygen.translate(found_fn, found_spec, consts)
+    d3 = pygen.translate(new_fn, new_spec, consts)
+    skeleton = [
+        "/-- the inner for/break of `integrate_node` (matched structurally): the first registered netconfig, in the order",
+        "of the dictionary, that passes `genIntegrateTest` (the test may raise, which ends the call) -/",
+        "def genFindNc (i : Nat) : List (Nat × Nat) → NetM (Option Nat)",
+        "  | [] => pure none",
+        "  | (_, n) :: rest => do",
+        "    if (← genIntegrateTest n i) then return some n",
+        "    genFindNc i rest",
+        "/-- the body of `for interface in node.interfaces.values():` — the for/else: the found part for the first netconfig",
+        "that passes the test (then `break`), the `else` part when none does -/",
+        "def genPlace (i : Nat) : NetM Unit := do",
+        "  match (← genFindNc i (← registered)) with",
+        "  | some n => genIntegrateFound n i",
+        "  | none => genIntegrateNew i",
+        "def genPlaceAll : List Nat → NetM Unit",
+        "  | [] => pure ()",
+        "  | i :: rest => do",
+        "    genPlace i",
+        "    genPlaceAll rest",
+        "/-- `integrate_node` for a node whose (new, pinned first loop) interface objects are `first … first+count-1`, in",
+        "the order of `node.interfaces.values()` -/",
+        "def genIntegrateNode (first count : Nat) : NetM Unit := genPlaceAll (List.range' first count)",
+    ]
+    return [INTEGRATE_PRELUDE, d1, d2, d3, skeleton]
+
+
+# ---------------------------------------------------------------------------------------------------------------------
+# (8) VMNetwork.__init__ -> genInitNode / genInit                                                       (build)
+#
+#   in front of the loop (checked)   `self.interfaces = {}` and `self.netconfigs = {}` are assigned exactly once, at the top
+#                                    level, and nothing else mentions them or calls integrate_node: the registry is empty
+#                                    (the model's `init`, with the interface objects created up front)
+#   the loop                         must be the LAST statement besides logging: `for vm_name in params.objects("vms"):`;
+#                                    the statements that get / create the vm object are pinned verbatim (no registry
+#                                    access), the last two — the node object and the call of integrate_node — are
+#                                    translated (genInitNode); the loop itself is the fixed skeleton `genInit` over the
+#                                    number of nics of every vm, in order
+
+INIT_VM = """
+vm = env.get_vm(vm_name)
+vm_params = params.object_params(vm_name)
+if vm is None:
+    vm = env.create_vm(params.get('vm_type'), params.get('target'), vm_name, vm_params, '/tmp')
+else:
+    vm.params = vm_params
+"""
+INIT_STMTS = {"self.nodes[vm_name] = self.new_node(vm)": "newNode",
+              "self.integrate_node(self.nodes[vm_name])": "genIntegrateNode first count"}
+INIT_PRELUDE = [
+    "/-- `self.nodes[vm_name] = self.new_node(vm)`: a node object without interfaces; not part of the registry state -/",
+    "def newNode : NetM Unit := pure ()",
+]
+INIT_DOC = "`VMNetwork.__init__` of avocado_i2n/vmnet/network.py, cut by harness/pygen_pxnet.py: "
+
+
+def init_defs(tree, consts):
+    fn = pygen.find_function(tree, "VMNetwork.__init__")
+    _args(fn, ["self", "params", "env"])
+    where = f"__init__:{fn.lineno}"
+    body = _strip_logs(_body(fn), where)
+    if not body or not isinstance(body[-1], ast.For) or any(isinstance(n, (ast.For, ast.While, ast.Try, ast.With))
+                                                            for st in body[:-1] for n in ast.walk(st)):
+        raise Unsupported(f"{where}: the constructor no longer ends with its one loop over the vms")
+    front, loop = body[:-1], body[-1]
+    for attr in ("interfaces", "netconfigs"):
+        hits = [st for st in front if f"self.{attr}" in ast.unparse(st)]
+        if len(hits) != 1 or pygen.dump_stmts(hits) != pygen.norm_block(f"self.{attr} = {{}}"):
+            raise Unsupported(f"{where}: `self.{attr} = {{}}` is no longer the only statement in front of the loop that "
+                              f"mentions self.{attr}")
+    for st in front:
+        if "integrate_node" in ast.unparse(st) or isinstance(st, (ast.Return, ast.Raise)):
+            raise Unsupported(f"{where}: `{ast.unparse(st)[:60]}` in front of the loop")
+    if loop.orelse or ast.unparse(loop.target) != "vm_name" or ast.unparse(loop.iter) != "params.objects('vms')":
+        raise Unsupported(f"{where}: the loop is no longer `for vm_name in params.objects('vms'):`")
+    lbody = _strip_logs(loop.body, where)
+    _no_jumps(lbody, where)
+    if len(lbody) < 3:
+        raise Unsupported(f"{where}: the loop body has {len(lbody)} statements")
+    _pinned(lbody[:-2], INIT_VM, where, "the statements of the loop that get / create the vm object")
+    # the model has no registry of nodes: `self.nodes[vm_name]` read before it is stored (KeyError) would be invisible in
+    # the generated Lean, so the ORDER of the two statements is checked here (mutant `init-node-after`)
+    _pinned(lbody[-2:], "\n".join(INIT_STMTS), where, "the node object stored, THEN integrated (the last two statements)")
+    node_fn = _synth("init_node", [], lbody[-2:], loop)
+    node_spec = Spec("genInitNode", binders=[("first", "Nat"), ("count", "Nat")], params={}, ret="unit", monad="NetM",
+                     stmts=INIT_STMTS,
+                     doc=INIT_DOC + "the last two statements of the loop over the vms; the interface objects of this vm "
+                                    "are `first … first+count-1`")
+    d1 = pygen.translate(node_fn, node_spec, consts)
+    skeleton = [
+        "/-- `for vm_name in params.objects(\"vms\"):` (matched structurally): `counts` = the number of nics of every vm, in",
+        "order; the interface objects are numbered in creation order -/",
+        "def genInit : Nat → List Nat → NetM Unit",
+        "  | _, [] => pure ()",
+        "  | first, count :: rest => do",
+        "    genInitNode first count",
+        "    genInit (first + count) rest",
+    ]
+    return [INIT_PRELUDE, d1, skeleton]
+
+
+def network_source(path=None):
+    path = path or pygen._src("PYGEN_NETWORK_SRC", NETWORK)
+    tree = ast.parse(open(path).read(), filename=path)
+    consts = pygen.module_constants(tree)
+    defs = [NETWORK_PRELUDE]
+    defs += reattach_defs(tree, consts)
+    defs += integrate_defs(tree, consts)
+    defs += init_defs(tree, consts)
+    return pygen.render_file("harness/pygen_pxnet.py:extract_net (called by harness/props/c18.py:extract) from "
+                             "avocado_i2n/vmnet/network.py", ["I2N.Extracted.GenNet"], "I2N.Extracted.GenNetwork",
+                             ["I2N.Net", "I2N.Extracted.GenNet"], defs)
+
+
+# ---------------------------------------------------------------------------------------------------------------------
 
 def net_source(path=None):
     path = path or pygen._src("PYGEN_NETCONFIG_SRC", NETCONFIG)
@@ -378,15 +965,18 @@ def net_source(path=None):
                        ("add_interface", addif_spec()), ("translate_address", translate_spec())):
         defs.append(pygen.translate(pygen.find_function(tree, "VMNetconfig." + name), spec, consts))
     defs += maskbit_defs(tree, consts)
+    defs += validate_defs(tree, consts)
     return pygen.render_file("harness/pygen_pxnet.py:extract_net (called by harness/props/c18.py:extract) from "
                              "avocado_i2n/vmnet/netconfig.py", ["I2N.Model.Net"], "I2N.Extracted.GenNet", ["I2N.Net"], defs)
 
 
 def extract_net(ctx=None):
-    return pygen.write_if_changed(pygen._lean_path("GenNet.lean"), net_source())
+    a = pygen.write_if_changed(pygen._lean_path("GenNet.lean"), net_source())
+    b = pygen.write_if_changed(pygen._lean_path("GenNetwork.lean"), network_source())
+    return a or b
 
 
-SOURCES = {"net": net_source}
+SOURCES = {"net": net_source, "network": network_source}
 
 
 if __name__ == "__main__":
